@@ -410,6 +410,32 @@ Definition e_closed (E : ehist) : Prop :=
   (forall e u, In e (e_pool E) -> In u (parents_of e) -> In u (map (@i_uid nat) (e_pool E))).
 
 (* ------------------------------------------------------------------------------------- *)
+(* continuing a history: add_to_history / add_to_archive_history with new individuals      *)
+(* ------------------------------------------------------------------------------------- *)
+(* new individuals (appended to the heap), new generations, new archive snapshots; the references
+   are references into the extended heap *)
+Record ext := mkExt { x_cells : list (ind pref); x_gens : list gen; x_snaps : list (list nat) }.
+
+Definition extend (H : hist) (G : ext) : hist :=
+  mkHist (h_heap H ++ x_cells G) (h_obj H) (h_gens H ++ x_gens G) (h_snaps H ++ x_snaps G) (h_tuning H) (h_dir H).
+
+(* the same continuation expressed over other object references *)
+Definition ren_pref (f : nat -> nat) (x : pref) : pref := match x with PRef r => PRef (f r) | PStr u => PStr u end.
+Definition ren_ind (f : nat -> nat) (i : ind pref) : ind pref :=
+  mkInd (i_uid i) (i_fit i) (i_graph i) (i_meta i) (i_ng i)
+        (option_map (fun o => mkPop (p_type o) (p_ops o) (p_uid o) (map (ren_pref f) (p_parents o))) (i_op i)).
+Definition ren_gen (f : nat -> nat) (g : gen) : gen := mkGen (g_num g) (g_label g) (g_meta g) (map f (g_members g)).
+Definition ren_ext (f : nat -> nat) (G : ext) : ext :=
+  mkExt (map (ren_ind f) (x_cells G)) (map (ren_gen f) (x_gens G)) (map (map f) (x_snaps G)).
+
+Definition ref_parents (i : ind pref) : list nat :=
+  flat_map (fun x => match x with PRef r => [r] | PStr _ => [] end) (parents_of i).
+
+(* every reference a continuation mentions *)
+Definition ext_refs (G : ext) : list nat :=
+  flat_map ref_parents (x_cells G) ++ all_members (x_gens G) ++ concat (x_snaps G).
+
+(* ------------------------------------------------------------------------------------- *)
 (* executable oracles                                                                     *)
 (* ------------------------------------------------------------------------------------- *)
 Definition opt_nat_eqb (a b : option nat) : bool :=
@@ -550,9 +576,6 @@ Definition opt_iso_b (a : option hist) (b : hist) : bool :=
   match a with Some x => iso_b x b | None => false end.
 
 (* --- reachable objects, one object per uid --------------------------------------------- *)
-Definition ref_parents (i : ind pref) : list nat :=
-  flat_map (fun x => match x with PRef r => [r] | PStr _ => [] end) (parents_of i).
-
 Fixpoint reach_walk (fuel : nat) (h : list (ind pref)) (todo seen : list nat) : list nat :=
   match fuel with
   | O => seen
